@@ -57,7 +57,7 @@ CHECKS = {
          "and the string / PDG-ID constructors are bounded: exhaustive chain shapes (incl. repeated decaying particles), mode/chain/parser round "
          "trips, all 806 PDG IDs.",
          "The composition to_dict;from_dict = identity is a paper argument over the two contracts; DecayChain.*, _build_decay_modes not under contract.", "bounded: exhaustive shapes", "5/C11"),
- "C12": ("other", "Bounded stand-in for the fix-point loop: every acyclic shape up to 6 decaying particles, all stable subsets, all permutations "
+ "C12": ("other", "Only the accessors of DecayChain are proved (constructor, top_level_decay, bf, ndecays). Bounded stand-in for the fix-point loop: every acyclic shape up to 6 decaying particles, all stable subsets, all permutations "
          "(<=4 entries), exact Fractions.", "No unbounded proof of the fix-point result is attempted (nonlinear weighted multiset invariant).",
          "bounded: exhaustive shapes with exact rationals", "5/C12"),
  "C13": ("other", "format_descriptor (pattern selection top/nested) is proved; canonicity and read-back injectivity are bounded (exhaustive shapes, "
